@@ -25,5 +25,11 @@ pub mod tls;
 mod tx_index;
 pub mod watcher;
 
+/// Re-exports of crate-private items for the external verification harness.
+#[cfg(feature = "verif")]
+pub mod verif_export {
+    pub use crate::tx_index::*;
+}
+
 #[cfg(test)]
 mod test_utils;
